@@ -41,7 +41,7 @@ type schemaGenerator struct {
 	schema           *schemas.Schema
 	schemaFileName   string
 	schemaTypesByRef map[string]*schemas.Type
-	// allOfInProgress holds the first member of every allOf list that is being merged.
+	// allOfInProgress holds the last member of every allOf list that is being merged.
 	allOfInProgress map[*schemas.Type]bool
 }
 
@@ -699,6 +699,12 @@ func (g *schemaGenerator) generateStructType(t *schemas.Type, scope nameScope) (
 		uniqueNames[additionalProperties] = 1
 	}
 
+	if len(t.AllOf) > 0 && len(t.AnyOf) == 0 && (len(t.Properties) > 0 || len(t.Required) > 0) {
+		// The own properties are generated as part of the merged type only, so that no property
+		// node is visited twice.
+		return g.generateAllOfType(allOfMembers(t), scope)
+	}
+
 	var structType codegen.StructType
 
 	for _, name := range sortedKeys(t.Properties) {
@@ -921,18 +927,35 @@ func (g *schemaGenerator) generateAnyOfType(anyOf []*schemas.Type, scope nameSco
 	return g.generateTypeInline(anyOfType, scope)
 }
 
+// allOfMembers lists the schemas that an object with an allOf is the conjunction of: the object's
+// own properties and required list take part like one more member (they used to be dropped next
+// to allOf).
+func allOfMembers(t *schemas.Type) []*schemas.Type {
+	if len(t.Properties) == 0 && len(t.Required) == 0 {
+		return t.AllOf
+	}
+
+	own := &schemas.Type{Type: t.Type, Properties: t.Properties, Required: t.Required}
+
+	return append([]*schemas.Type{own}, t.AllOf...)
+}
+
 func (g *schemaGenerator) generateAllOfType(allOf []*schemas.Type, scope nameScope) (codegen.Type, error) {
 	// An allOf list that is reached again while it is being merged is recursive (a definition
 	// with a property that is an allOf over the definition itself): the merged struct shares
 	// the property nodes, so expanding it would never end. Like a recursive anyOf, it stays
 	// untyped at that point.
-	if len(allOf) > 0 && allOf[0] != nil {
-		if g.allOfInProgress[allOf[0]] {
+	if len(allOf) == 0 {
+		return nil, schemas.ErrEmptyTypesList
+	}
+
+	if key := allOf[len(allOf)-1]; key != nil {
+		if g.allOfInProgress[key] {
 			return codegen.EmptyInterfaceType{}, nil
 		}
 
-		g.allOfInProgress[allOf[0]] = true
-		defer delete(g.allOfInProgress, allOf[0])
+		g.allOfInProgress[key] = true
+		defer delete(g.allOfInProgress, key)
 	}
 
 	rAllOf, err := g.resolveRefs(allOf)
@@ -1001,7 +1024,7 @@ func (g *schemaGenerator) generateTypeInline(t *schemas.Type, scope nameScope) (
 		}
 
 		if len(t.AllOf) > 0 {
-			return g.generateAllOfType(t.AllOf, scope)
+			return g.generateAllOfType(allOfMembers(t), scope)
 		}
 
 		typeIndex := 0
